@@ -18,7 +18,7 @@ def _has_strings(fs):
     return "String" in txt
 
 
-def prove(assumptions, goal, timeout_ms=None, want_model=True):
+def prove(assumptions, goal, timeout_ms=None, want_model=True, second_opinion=True):
     """Return dict(status=discharged|refuted|undecided, backend, time_s, model, reason)."""
     t0 = time.time()
     timeout_ms = timeout_ms or Z3_TIMEOUT_MS
@@ -35,6 +35,29 @@ def prove(assumptions, goal, timeout_ms=None, want_model=True):
         m = s.model()
         return dict(status="refuted", backend="z3", time_s=dt, model=m, model_text=_model_text(m))
     reason = s.reason_unknown()
+    # retry with other seeds / the nlsat tactic: unknown answers of z3 on small nonlinear VCs are often unstable
+    for attempt, (tac, seed) in enumerate([(None, 7), ("qfnra-nlsat", 0), (None, 42)]):
+        try:
+            if tac is None:
+                s2 = z3.Solver()
+                s2.set("random_seed", seed)
+            else:
+                s2 = z3.Tactic(tac).solver()
+            s2.set("timeout", max(2000, timeout_ms // 2))
+            for a in assumptions:
+                s2.add(a)
+            s2.add(z3.Not(goal))
+            r = s2.check()
+        except z3.Z3Exception:
+            continue
+        if r == z3.unsat:
+            return dict(status="discharged", backend=f"z3({tac or 'seed'+str(seed)})", time_s=time.time() - t0)
+        if r == z3.sat:
+            m = s2.model()
+            return dict(status="refuted", backend="z3", time_s=time.time() - t0, model=m, model_text=_model_text(m))
+    dt = time.time() - t0
+    if not second_opinion:
+        return dict(status="undecided", backend="z3", time_s=dt, reason=f"z3: {reason}")
     # second opinion
     r2 = _cvc5(s.to_smt2())
     dt = time.time() - t0
